@@ -61,7 +61,7 @@ theorem inv_exec {s : State} (h : Inv s) (now : Nat) (c : Cmd) : Inv (exec s now
   case smembers k => rw [execSMembers_ro]; exact h
   case sismember k m => rw [execSIsMember_ro]; exact h
   case scard k => rw [execSCard_ro]; exact h
-  case spop k n ch => cases n <;> simp only [exec] <;> first | exact inv_execSPop1 h .. | exact inv_execSPopN h ..
+  case spop k n ch => cases n <;> first | exact inv_execSPop1 h .. | exact inv_execSPopN h ..
   case hset k fvs => exact inv_execHSet h ..
   case hget k f => rw [execHGet_ro]; exact h
   case hdel k fs => exact inv_execHDel h ..
@@ -144,7 +144,7 @@ theorem exec_err {s : State} {now : Nat} {c : Cmd} (he : (exec s now c).2.isErro
   case sismember k m => exact execSIsMember_ro ..
   case scard k => exact execSCard_ro ..
   case spop k n ch =>
-    cases n <;> simp only [exec] at he ⊢
+    cases n
     · exact execSPop1_err he
     · exact execSPopN_err he
   case hset k fvs => exact execHSet_err he
